@@ -182,6 +182,13 @@ func Main(args []string) int {
 		p2 = nil
 		sens := sensitivity(*prop, *repo, run)
 		c.Extra["sensitivity"] = sens
+		ben := benignReplay(*prop, *repo, run)
+		c.Extra["benign"] = ben
+		for _, br := range ben {
+			if br.Applied && br.Detected {
+				fmt.Printf("NOTE: checker self-test: behaviour-preserving change %s is reported by %s (rules %s): a false alarm of the checker\n", br.ID, *prop, strings.Join(br.Rules, ","))
+			}
+		}
 		muts := runMutants(*prop, *repo, "", run)
 		c.Extra["mutants"] = muts
 		for _, mr := range muts {
